@@ -376,3 +376,331 @@ theorem scan_rc (acc rest : List Nat) (b : Buf) :
   | case7 acc b a r c n hx hd res h1 ih => exact ih
 
 end UvModel.Puny
+
+/-! ### WTF-8 / UTF-16 converters: arithmetic form, `decode1 ∘ encode`, the conversion loops -/
+namespace UvModel.Wtf8
+set_option linter.unusedSimpArgs false
+open UvModel.Utf8 (and_c0 and63 or80)
+
+theorem orC0 (x : Nat) (h : x < 64) : 0xC0 ||| x = 192 + x := by
+  have := Nat.shiftLeft_add_eq_or_of_lt (i := 6) (b := x) (by omega) 3
+  simpa using this.symm
+theorem orE0 (x : Nat) (h : x < 32) : 0xE0 ||| x = 224 + x := by
+  have := Nat.shiftLeft_add_eq_or_of_lt (i := 5) (b := x) (by omega) 7
+  simpa using this.symm
+theorem orF0 (x : Nat) (h : x < 16) : 0xF0 ||| x = 240 + x := by
+  have := Nat.shiftLeft_add_eq_or_of_lt (i := 4) (b := x) (by omega) 15
+  simpa using this.symm
+theorem shr (x k : Nat) : x >>> k = x / 2 ^ k := Nat.shiftRight_eq_div_pow x k
+theorem shl6_or (hi lo : Nat) (h : lo < 64) : (hi <<< 6) ||| lo = hi * 64 + lo := by
+  rw [← Nat.shiftLeft_add_eq_or_of_lt (by omega), Nat.shiftLeft_eq]
+theorem and7FF (x : Nat) : 0x7FF &&& x = x % 2048 := by
+  rw [Nat.and_comm]; exact Nat.and_two_pow_sub_one_eq_mod x 11
+theorem andFFFF (x : Nat) : 0xFFFF &&& x = x % 65536 := by
+  rw [Nat.and_comm]; exact Nat.and_two_pow_sub_one_eq_mod x 16
+theorem and1FFFFF (x : Nat) : x &&& 0x1FFFFF = x % 2097152 := Nat.and_two_pow_sub_one_eq_mod x 21
+theorem and3FF (x : Nat) : x &&& 0x3FF = x % 1024 := Nat.and_two_pow_sub_one_eq_mod x 10
+theorem contC0 (x : Nat) (h : x < 256) : (x &&& 0xC0 ≠ 0x80) ↔ ¬ (x / 64 = 2) := by
+  rw [Nat.and_comm, Ne, and_c0 x h]
+
+/-- arithmetic form of `encode` -/
+theorem encode_eq (cp : Nat) (h : cp < 0x110000) : encode cp =
+    if cp < 0x80 then [cp]
+    else if cp < 0x800 then [192 + cp / 64, 128 + cp % 64]
+    else if cp < 0x10000 then [224 + cp / 4096, 128 + cp / 64 % 64, 128 + cp % 64]
+    else [240 + cp / 262144, 128 + cp / 4096 % 64, 128 + cp / 64 % 64, 128 + cp % 64] := by
+  unfold encode
+  simp only [and63, shr]
+  split
+  · rfl
+  · split
+    · rw [orC0 _ (by omega), or80 _ (by omega)]
+    · split
+      · rw [orE0 _ (by omega), or80 _ (by omega), or80 _ (by omega)]
+      · rw [orF0 _ (by omega), or80 _ (by omega), or80 _ (by omega), or80 _ (by omega)]
+
+/-- arithmetic form of `decode1` -/
+def decode1A (l : List Nat) : Option Nat × Nat :=
+  let b1 := l.headD 0
+  if b1 ≤ 0x7F then (some b1, 0)
+  else if b1 < 0xC2 then (none, 0)
+  else
+    let b2 := (l.drop 1).headD 0
+    if ¬ (b2 / 64 = 2) then (none, 1)
+    else if b1 ≤ 0xDF then (some ((b1 * 64 + b2 % 64) % 2048), 1)
+    else
+      let b3 := (l.drop 2).headD 0
+      if ¬ (b3 / 64 = 2) then (none, 2)
+      else if b1 ≤ 0xEF then (some (((b1 * 64 + b2 % 64) * 64 + b3 % 64) % 65536), 2)
+      else
+        let b4 := (l.drop 3).headD 0
+        if ¬ (b4 / 64 = 2) then (none, 3)
+        else if b1 ≤ 0xF4 ∧ (((b1 * 64 + b2 % 64) * 64 + b3 % 64) * 64 + b4 % 64) % 2097152 ≤ 0x10FFFF then
+          (some ((((b1 * 64 + b2 % 64) * 64 + b3 % 64) * 64 + b4 % 64) % 2097152), 3)
+        else (none, 3)
+
+theorem headD_lt (l : List Nat) (k : Nat) (h : ∀ b ∈ l, b < 256) : (l.drop k).headD 0 < 256 := by
+  cases hd : l.drop k with
+  | nil => simp
+  | cons x r =>
+    have : x ∈ l := List.mem_of_mem_drop (by rw [hd]; simp)
+    simpa using h x this
+
+theorem decode1_eq_A (l : List Nat) (h : ∀ b ∈ l, b < 256) : decode1 l = decode1A l := by
+  unfold decode1 decode1A
+  simp only [and63, and7FF, andFFFF, and1FFFFF]
+  have h2 := headD_lt l 1 h; have h3 := headD_lt l 2 h; have h4 := headD_lt l 3 h
+  have e : ∀ hi x, (hi <<< 6) ||| (x % 64) = hi * 64 + x % 64 :=
+    fun hi x => shl6_or _ _ (Nat.mod_lt _ (by omega))
+  simp only [contC0 _ h2, contC0 _ h3, contC0 _ h4, e]
+
+theorem encode_bytes (cp : Nat) (h : cp < 0x110000) : ∀ b ∈ encode cp, b < 256 := by
+  rw [encode_eq cp h]
+  repeat' split
+  all_goals (intro b hb; simp only [List.mem_cons, List.not_mem_nil, or_false] at hb; omega)
+
+/-- decoding what `encode` produced gives the code point back, whatever follows -/
+theorem decode1_encode (cp : Nat) (h : cp < 0x110000) (tail : List Nat) (ht : ∀ b ∈ tail, b < 256) :
+    decode1 (encode cp ++ tail) = (some cp, (encode cp).length - 1) := by
+  rw [decode1_eq_A _ (by
+    intro b hb; rcases List.mem_append.mp hb with h1 | h1
+    · exact encode_bytes cp h b h1
+    · exact ht b h1)]
+  rw [encode_eq cp h]
+  have e1 : cp / 64 / 64 = cp / 4096 := by rw [Nat.div_div_eq_div_mul]
+  have e2 : cp / 4096 / 64 = cp / 262144 := by rw [Nat.div_div_eq_div_mul]
+  by_cases h1 : cp < 0x80
+  · simp only [if_pos h1, decode1A, List.cons_append, List.nil_append, List.headD_cons]
+    rw [if_pos (by omega)]; rfl
+  · by_cases h2 : cp < 0x800
+    · simp only [if_neg h1, if_pos h2, decode1A, List.cons_append, List.nil_append, List.headD_cons,
+        List.drop_succ_cons, List.drop_zero, List.length_cons, List.length_nil]
+      repeat' split
+      all_goals first | omega | (simp only [Prod.mk.injEq, Option.some.injEq, and_true, true_and] <;> omega) | (exfalso; omega)
+    · by_cases h3 : cp < 0x10000
+      · simp only [if_neg h1, if_neg h2, if_pos h3, decode1A, List.cons_append, List.nil_append,
+          List.headD_cons, List.drop_succ_cons, List.drop_zero, List.length_cons, List.length_nil]
+        repeat' split
+        all_goals first | omega | (simp only [Prod.mk.injEq, Option.some.injEq, and_true, true_and] <;> omega) | (exfalso; omega)
+      · simp only [if_neg h1, if_neg h2, if_neg h3, decode1A, List.cons_append, List.nil_append,
+          List.headD_cons, List.drop_succ_cons, List.drop_zero, List.length_cons, List.length_nil]
+        repeat' split
+        all_goals first | omega | (simp only [Prod.mk.injEq, Option.some.injEq, and_true, true_and] <;> omega) | (exfalso; omega)
+
+/-- `uv_wtf8_length_as_utf16` counts exactly the units `uv_wtf8_to_utf16` stores, and fails (-1)
+    exactly when the converter would (for every byte string, valid or not) -/
+theorem lengthAsUtf16_eq (l : List Nat) (acc : Nat) :
+    lengthAsUtf16 l acc = (toUtf16 l).map (fun us => acc + us.length) := by
+  fun_induction lengthAsUtf16 l acc with
+  | case1 l acc n hd => rw [toUtf16, hd]; rfl
+  | case2 l acc cp adv hd acc' hnz ih =>
+    rw [toUtf16, hd]
+    simp only [dif_pos hnz, ih, Option.map_map]
+    congr 1; funext us
+    simp only [Function.comp, List.length_append, acc']
+    split <;> simp <;> omega
+  | case3 l acc cp adv hd acc' hz =>
+    rw [toUtf16, hd]
+    simp only [dif_neg hz, Option.map_some, acc']
+    split <;> simp
+
+/-- WTF-8 encoding of a UTF-16 unit list as a pure function: surrogate pairs are combined, every
+    other unit (unpaired surrogates included) is encoded on its own -/
+def encU : List Nat → List Nat
+  | [] => []
+  | [u] => encode u
+  | u :: next :: rest =>
+    if isHi u ∧ isLo next then encode (pairValue u next) ++ encU rest
+    else encode u ++ encU (next :: rest)
+
+/-- units are non-zero 16-bit values -/
+def Units (u : List Nat) : Prop := ∀ x ∈ u, 0 < x ∧ x < 65536
+
+theorem units_cons {x : Nat} {l : List Nat} (h : Units (x :: l)) : (0 < x ∧ x < 65536) ∧ Units l :=
+  ⟨h x (by simp), fun y hy => h y (by simp [hy])⟩
+
+theorem pairValue_bounds (u n : Nat) (h : isHi u ∧ isLo n) :
+    0x10000 ≤ pairValue u n ∧ pairValue u n < 0x110000 ∧
+    (pairValue u n - 0x10000) / 1024 + 0xD800 = u ∧ (pairValue u n - 0x10000) % 1024 + 0xDC00 = n := by
+  unfold pairValue isHi isLo at *
+  rw [Nat.shiftLeft_eq]
+  omega
+
+theorem encode_len (cp : Nat) : 1 ≤ (encode cp).length ∧ (0x10000 ≤ cp → (encode cp).length = 4) := by
+  unfold encode
+  by_cases h1 : cp < 0x80
+  · simp only [if_pos h1, List.length_cons, List.length_nil]; exact ⟨by omega, fun h => by omega⟩
+  · by_cases h2 : cp < 0x800
+    · simp only [if_neg h1, if_pos h2, List.length_cons, List.length_nil]; exact ⟨by omega, fun h => by omega⟩
+    · by_cases h3 : cp < 0x10000
+      · simp only [if_neg h1, if_neg h2, if_pos h3, List.length_cons, List.length_nil]
+        exact ⟨by omega, fun h => by omega⟩
+      · simp only [if_neg h1, if_neg h2, if_neg h3, List.length_cons, List.length_nil]
+        simp
+
+theorem lengthAsWtf8_eq (z : Bool) (u : List Nat) (hu : Units u) :
+    lengthAsWtf8 z u = (encU u).length := by
+  fun_induction lengthAsWtf8 z u with
+  | case1 => rfl
+  | case2 u hz => exact absurd hz.2 (by have := (units_cons hu).1; omega)
+  | case3 u hz => rfl
+  | case4 u next rest hz => exact absurd hz.2 (by have := (units_cons hu).1; omega)
+  | case5 u next rest hz hp ih =>
+    rw [encU, if_pos hp, List.length_append, (encode_len _).2 (pairValue_bounds u next hp).1,
+      ih (units_cons (units_cons hu).2).2]
+  | case6 u next rest hz hp ih =>
+    rw [encU, if_neg hp, List.length_append, ih (units_cons hu).2]
+
+/-- one step of `encU`, in the shape the conversion loop uses -/
+theorem encU_cons (u : Nat) (rest : List Nat) :
+    encU (u :: rest) =
+      (match rest with
+        | next :: r => if isHi u ∧ isLo next then encode (pairValue u next) ++ encU r
+                       else encode u ++ encU (next :: r)
+        | [] => encode u) := by
+  cases rest with
+  | nil => rfl
+  | cons next r => rw [encU]
+
+theorem toWtf8Loop_fits (z : Bool) (cap : Nat) (src out : List Nat) (tlen : Nat) (hu : Units src)
+    (hcap : out.length + (encU src).length ≤ cap) :
+    ∃ t, toWtf8Loop z cap src out tlen =
+      (out ++ encU src, t, [], z && ((out ++ encU src).length == cap)) := by
+  fun_induction toWtf8Loop z cap src out tlen with
+  | case1 out tlen =>
+    refine ⟨tlen, ?_⟩
+    simp only [encU, List.append_nil, Prod.mk.injEq, true_and]
+    cases z <;> simp [bne]
+  | case2 u rest out tlen hfull =>
+    have := (encode_len u).1
+    rw [encU_cons] at hcap
+    cases rest with
+    | nil => simp only [] at hcap; omega
+    | cons next r =>
+      simp only [] at hcap
+      split at hcap
+      · have := (encode_len (pairValue u next)).1; simp only [List.length_append] at hcap; omega
+      · simp only [List.length_append] at hcap; omega
+  | case3 u rest out tlen hfull hz => exact absurd hz.2 (by have := (units_cons hu).1; omega)
+  | case4 u rest out tlen hfull hz pair cp bs room hbig =>
+    exfalso
+    rw [encU_cons] at hcap
+    cases rest with
+    | nil =>
+      simp only [] at hcap
+      have : bs = encode u := by simp [bs, cp, pair]
+      rw [this] at hbig; omega
+    | cons next r =>
+      simp only [] at hcap
+      by_cases hp : isHi u ∧ isLo next
+      · rw [if_pos hp, List.length_append] at hcap
+        have : bs = encode (pairValue u next) := by simp [bs, cp, pair, hp]
+        rw [this] at hbig; omega
+      · rw [if_neg hp, List.length_append] at hcap
+        have : bs = encode u := by simp [bs, cp, pair, hp]
+        rw [this] at hbig; omega
+  | case5 u rest out tlen hfull hz pair cp bs room hbig out' hpair ih =>
+    cases rest with
+    | nil => simp [pair] at hpair
+    | cons next r =>
+      have hp : isHi u ∧ isLo next := by simpa [pair] using hpair
+      have hbs : bs = encode (pairValue u next) := by simp [bs, cp, pair, hp]
+      have he : encU (u :: next :: r) = bs ++ encU r := by rw [encU, if_pos hp, hbs]
+      rw [he] at hcap ⊢
+      have := ih (units_cons (units_cons hu).2).2 (by
+        simp only [out', List.length_append] at hcap ⊢; simp only [List.drop_succ_cons, List.drop_zero]; omega)
+      simp only [List.drop_succ_cons, List.drop_zero, out', List.append_assoc] at this ⊢
+      exact this
+  | case6 u rest out tlen hfull hz pair cp bs room hbig out' hpair ih =>
+    have hbs : bs = encode u := by simp [bs, cp, hpair]
+    have he : encU (u :: rest) = bs ++ encU rest := by
+      rw [encU_cons, hbs]
+      cases rest with
+      | nil => simp [encU]
+      | cons next r =>
+        have hp : ¬ (isHi u ∧ isLo next) := by simpa [pair] using hpair
+        simp only [if_neg hp]
+    rw [he] at hcap ⊢
+    have := ih (units_cons hu).2 (by simp only [out', List.length_append] at hcap ⊢; omega)
+    simp only [out', List.append_assoc] at this ⊢
+    exact this
+
+/-- allocation mode of `uv_utf16_to_wtf8`: success, exactly `encU src` plus the terminator,
+    reported length = `uv_utf16_length_as_wtf8` -/
+theorem toWtf8_alloc (z : Bool) (src : List Nat) (hu : Units src) :
+    toWtf8 z src none = ⟨0, encU src ++ [0], (encU src).length⟩ := by
+  unfold toWtf8
+  simp only [lengthAsWtf8_eq z src hu]
+  obtain ⟨t, ht⟩ := toWtf8Loop_fits z (encU src).length src [] 0 hu (by simp)
+  rw [ht]
+  simp only [List.nil_append, List.headD_nil, ne_eq, not_true_eq_false, if_false, and_self, and_true]
+  cases z <;> simp
+
+theorem encU_bytes (u : List Nat) (hu : Units u) : ∀ b ∈ encU u, b < 256 := by
+  fun_induction encU u with
+  | case1 => simp
+  | case2 u => exact encode_bytes u (by have := (units_cons hu).1; omega)
+  | case3 u next rest hp ih =>
+    intro b hb
+    rcases List.mem_append.mp hb with h | h
+    · exact encode_bytes _ (pairValue_bounds u next hp).2.1 b h
+    · exact ih (units_cons (units_cons hu).2).2 b h
+  | case4 u next rest hp ih =>
+    intro b hb
+    rcases List.mem_append.mp hb with h | h
+    · exact encode_bytes u (by have := (units_cons hu).1; omega) b h
+    · exact ih (units_cons hu).2 b h
+
+/-- the last byte of an encoded non-zero code point is not 0, so the `do … while` loops go on -/
+theorem encode_last_ne (cp : Nat) (h0 : 0 < cp) (h : cp < 0x110000) (tail : List Nat) :
+    ((encode cp ++ tail).drop ((encode cp).length - 1)).headD 0 ≠ 0 := by
+  rw [encode_eq cp h]
+  repeat' split
+  all_goals (simp <;> omega)
+
+theorem toUtf16_encode (cp : Nat) (h0 : 0 < cp) (h : cp < 0x110000) (tail : List Nat)
+    (ht : ∀ b ∈ tail, b < 256) :
+    toUtf16 (encode cp ++ tail) = (toUtf16 tail).map
+      ((if cp > 0xFFFF then [((cp - 0x10000) >>> 10) + 0xD800, ((cp - 0x10000) &&& 0x3FF) + 0xDC00]
+        else [cp]) ++ ·) := by
+  rw [toUtf16, decode1_encode cp h tail ht]
+  simp only [dif_pos (encode_last_ne cp h0 h tail)]
+  have hl := (encode_len cp).1
+  rw [show (encode cp).length - 1 + 1 = (encode cp).length by omega, List.drop_left']
+  rfl
+
+theorem toUtf16_nil : toUtf16 [] = some [0] := by
+  rw [toUtf16]; simp [decode1]
+
+/-- decoding the WTF-8 form of a unit list gives the list back (plus the terminator) -/
+theorem toUtf16_encU (u : List Nat) (hu : Units u) : toUtf16 (encU u) = some (u ++ [0]) := by
+  fun_induction encU u with
+  | case1 => exact toUtf16_nil
+  | case2 u =>
+    have hb := (units_cons hu).1
+    have := toUtf16_encode u hb.1 (by omega) [] (by simp)
+    rw [List.append_nil] at this
+    rw [this, toUtf16_nil, if_neg (by omega)]; rfl
+  | case3 u next rest hp ih =>
+    have pb := pairValue_bounds u next hp
+    rw [toUtf16_encode _ (by omega) pb.2.1 _ (encU_bytes rest (units_cons (units_cons hu).2).2),
+      ih (units_cons (units_cons hu).2).2, if_pos (by omega)]
+    simp only [shr, and3FF, Option.map_some]
+    rw [show (2 : Nat) ^ 10 = 1024 from rfl, pb.2.2.1, pb.2.2.2]; rfl
+  | case4 u next rest hp ih =>
+    have hb := (units_cons hu).1
+    rw [toUtf16_encode u hb.1 (by omega) _ (encU_bytes _ (units_cons hu).2), ih (units_cons hu).2,
+      if_neg (by omega)]; rfl
+
+/-- caller-supplied target that is large enough: same result as the allocating mode -/
+theorem toWtf8_provided (z : Bool) (src : List Nat) (hu : Units src) (n : Nat)
+    (hn : (encU src).length ≤ n) :
+    toWtf8 z src (some n) = ⟨0, encU src ++ [0], (encU src).length⟩ := by
+  unfold toWtf8
+  obtain ⟨t, ht⟩ := toWtf8Loop_fits z n src [] 0 hu (by simpa using hn)
+  simp only [ht]
+  simp only [List.nil_append, List.headD_nil, ne_eq, and_true]
+  by_cases he : (encU src).length = n
+  · cases z <;> simp [he]
+  · cases z <;> simp [he]
+end UvModel.Wtf8
